@@ -168,6 +168,7 @@ def main():
     ap = argparse.ArgumentParser()
     ap.add_argument("--per", type=int, default=8); ap.add_argument("--props", default=""); ap.add_argument("--seed", type=int, default=0)
     ap.add_argument("--out", default=ROOT + "/.scratch/mutation_results.jsonl"); ap.add_argument("--workers", type=int, default=4)
+    ap.add_argument("--only", default="", help="comma separated file:line:kind selectors (basename of the file); every matching mutant is run")
     a = ap.parse_args()
     rnd = random.Random(a.seed)
     A = anchors()
@@ -186,7 +187,13 @@ def main():
                 continue
         rnd.shuffle(pool)
         seen = set()
+        only = [tuple(x.split(":")) for x in a.only.split(",") if x]
         for rel, line, kind, new in pool:
+            if only:
+                if not any(os.path.basename(rel) == o[0] and str(line) == o[1] and kind == o[2] for o in only):
+                    continue
+                jobs.append((k, pid, rel, line, kind, new)); texts[k] = (rel, new); k += 1
+                continue
             if (rel, line, kind) in seen or len([j for j in jobs if j[1] == pid]) >= a.per:
                 continue
             seen.add((rel, line, kind))
